@@ -33,7 +33,9 @@ def record_alphabet():
     recs = [mrec(p, u, ps, us) for (p, ps) in sides(P) for (u, us) in sides(U)]
     plain = [r for r in recs if not r.psyn and not r.usyn]
     # a record may repeat a value inside its own synonym list: that is not a clash between two different records
-    dup = [mrec("a", "x", ("b", "b")), mrec("b", "xy", (), ("X", "X")), mrec("A", "X", ("b", "b"), ("x", "x"))]
+    dup = [mrec("a", "x", ("b", "b")), mrec("b", "xy", (), ("X", "X")), mrec("A", "X", ("b", "b"), ("x", "x")),
+           # the two sides are independent name spaces: equal strings across sides are no clash and no self-synonym
+           mrec("x", "x"), mrec("a", "X", (), ("a",)), mrec("", ""), mrec("b", "", ("",), ("b",))]
     return recs, plain, dup
 
 
@@ -66,11 +68,16 @@ def units(tier, seed):
     return us
 
 
+def ckey(k):
+    """Canonical, order-independent text of a record key (repr of a frozenset is not canonical)."""
+    return repr((k[0], k[1], tuple(sorted(k[2])), tuple(sorted(k[3])), k[4]))
+
+
 def dupset(exc):
     """{(sorted pair of record keys, string)} from a DuplicateValueError."""
     out = set()
     for d in exc.duplicates:
-        pair = tuple(sorted([repr(rec_key(d.record_1)), repr(rec_key(d.record_2))]))
+        pair = tuple(sorted([ckey(rec_key(d.record_1)), ckey(rec_key(d.record_2))]))
         out.add((pair, d.prefix))
     return out
 
@@ -78,7 +85,7 @@ def dupset(exc):
 def model_dupset(model, clashes):
     out = set()
     for i, j, s in clashes:
-        pair = tuple(sorted([repr(model.records[i].key()), repr(model.records[j].key())]))
+        pair = tuple(sorted([ckey(model.records[i].key()), ckey(model.records[j].key())]))
         out.add((pair, s))
     return out
 
@@ -135,6 +142,9 @@ def run_seq(seq, ctx=None):
     model = Model(recs, ":")
     where = f"Converter({seq})"
     conv = check_result(lambda: Converter([to_record(r) for r in recs]), model, fails, where, ctx)
+    if len(recs) >= 2:
+        # the constructor takes any iterable of records, also a one-shot one
+        check_result(lambda: Converter(to_record(r) for r in recs), model, fails, f"Converter(<generator over {seq}>)", ctx)
     w2 = f"from_extended_prefix_map({seq})"
     dicts = [{"prefix": r.prefix, "uri_prefix": r.uri_prefix, "prefix_synonyms": list(r.psyn), "uri_prefix_synonyms": list(r.usyn)} for r in recs]
     check_result(lambda: Converter.from_extended_prefix_map(dicts), model, fails, w2, ctx)
@@ -197,8 +207,10 @@ def run_loader(kind, items, ctx=None):
 
 
 def loader_cases(kind):
-    if kind in ("prefix_map", "jsonld"):
+    if kind == "prefix_map":
         yield from ordered_dicts(P, U)
+    elif kind == "jsonld":
+        yield from ordered_dicts(P, U + ["", "@v"])   # the empty IRI and IRIs starting with '@' are ordinary URI prefixes
     elif kind == "priority_map":
         lists = [(u,) for u in U] + [(u, v) for u in U for v in U if u != v] + [("x", "X", "X")]
         yield from ordered_dicts(P, lists)
